@@ -54,6 +54,11 @@ func (h *HttpServer) handleUploadURLInit(w http.ResponseWriter, r *http.Request)
 		http.NotFound(w, r)
 		return
 	}
+	// The route vends pre-signed storage URLs, so it sits behind the same
+	// authenticator as the RPC routes.
+	if auth := h.authenticate(w, r); auth == nil {
+		return
+	}
 	if ct := r.Header.Get("Content-Type"); ct != arrowContentType {
 		h.writeHttpError(w, http.StatusUnsupportedMediaType,
 			fmt.Errorf("unsupported content type: %s", ct), UploadURLResponseSchema)
